@@ -19,7 +19,7 @@ pub mod plain {
         ThreadLocalCtxt::new()
     }
 
-    fn make_filter(_log: &Shared, _in_sampled: bool) -> TheFilter {
+    fn make_filter(_log: &Shared, _in_sampled: bool, _no_sampler: bool) -> TheFilter {
         Box::new(emit::filter::from_fn(|evt| {
             use emit::Props as _;
             if evt.props().pull::<emit::Kind, _>("evt_kind") == Some(emit::Kind::Span) {
@@ -44,8 +44,15 @@ pub mod tp {
         TraceparentCtxt::new(ThreadLocalCtxt::new())
     }
 
-    fn make_filter(log: &Shared, in_sampled: bool) -> TheFilter {
+    fn make_filter(log: &Shared, in_sampled: bool, no_sampler: bool) -> TheFilter {
         use emit::Filter as _;
+        if no_sampler {
+            return if in_sampled {
+                Box::new(TraceparentFilter::new().and_when(emit_traceparent::in_sampled_trace_filter(true)))
+            } else {
+                Box::new(TraceparentFilter::new())
+            };
+        }
         let log = log.clone();
         let sampler = TraceparentFilter::new_with_sampler(move |_: &emit::SpanCtxt| {
             let decision = NEXT_SAMPLE.with(|c| c.get());
